@@ -44,7 +44,8 @@ def adapt(run):
             out.append({"ev": "End", "quiescent": bool(ev["quiescent"])})
         if "obs" in ev and k != "end":
             o = ev["obs"]
-            out.append({"ev": "ObsQ", "q": o.get("q", []), "putters": o.get("putters", 0), "getters": o.get("getters", 0)})
+            if "q" in o and "putters" in o and "getters" in o:      # (private state: compared only if readable)
+                out.append({"ev": "ObsQ", "q": o["q"], "putters": o["putters"], "getters": o["getters"]})
             out.append({"ev": "ObsRc", "rc": o["rc"]})
     return out
 
